@@ -93,8 +93,6 @@ class ExprGen:
         self.leafconts = [p for p in spec.containers
                           if all(c in spec.leaf_type for c in spec.children[p])]
         self.ops_off = set(cfg.get("ops_off", ()))
-        # deferred equality (a._eq(b)) prints as (a == b), which does not rebuild the node:
-        # kept out of everything that goes through printed text (load / dump / gen_fun)
         self.no_eqne = bool(cfg.get("no_eqne", False))
 
     def lit(self, typ):
@@ -346,10 +344,8 @@ class HistoryGen:
         if kind == "load":
             n = rng.randint(1, 3)
             pairs = []
-            keep, self.eg.no_eqne = self.eg.no_eqne, True
             for p in rng.sample(free, min(n, len(free))):
                 pairs.append((p, self.eg.gen(spec.leaf_type[p], min(2, self.cfg["expr_depth"]), True)))
-            self.eg.no_eqne = keep
             return ("load", tuple(pairs), rng.random() < 0.7)
         if kind in ("refresh", "cleanup", "verify"):
             return (kind,)
